@@ -59,8 +59,61 @@ def candidates(path, text):
         # boolean literals in assignments / arguments
         if re.search(r'\b(true|false)\b', st) and st.endswith((';', ',')) and '//' not in st and 'assert' not in st:
             out.append((i, re.sub(r'\btrue\b', 'FALSE_', re.sub(r'\bfalse\b', 'true', l, 1), 1).replace('FALSE_', 'false'), 'flip-bool'))
+    # ---- second operator set
+    for i, l in enumerate(lines):
+        st = l.strip()
+        if not st or st.startswith(('//', '#[', '/*', '*', 'use ', 'pub use', 'mod ', 'pub mod', '# ')):
+            continue
+        if re.match(r'^(pub )?mod tests? \{', st):
+            break
+        for a, b in (('.min(', '.max('), ('.max(', '.min('), ('.is_some()', '.is_none()'), ('.is_none()', '.is_some()'),
+                     ('.is_ok()', '.is_err()'), ('.is_err()', '.is_ok()'), ('.saturating_sub(', '.wrapping_sub('),
+                     ('.left', '.right'), ('.right', '.left'), ('Ordering::SeqCst', 'Ordering::Relaxed'),
+                     ('.is_empty()', '.is_empty() == false'), ('.then(', '.then_some(()).and_then(|_| None::<()>).or(None).map(|_: ()| unreachable!()).or_else('),
+                     ):
+            if a in l and not st.startswith(('fn ', 'pub fn', 'impl', 'pub(crate) fn', 'where')) and 'then_some(())' not in b:
+                out.append((i, l.replace(a, b, 1), 'swap%s->%s' % (a.strip('.('), b.strip('.(')[:12])))
+                break
+        # drop error propagation
+        if st.endswith('?;') and st.count('(') == st.count(')') and l.startswith('\t\t') and not st.startswith('let '):
+            out.append((i, l[:-2] + '.ok();', 'drop-?'))
+        # Some(x) on a line of its own as a tail expression / match arm value -> None
+        m = re.match(r'^(\s*)Some\((.*)\)(,?)\s*$', l)
+        if m and m.group(2).count('(') == m.group(2).count(')'):
+            out.append((i, '%sNone%s' % (m.group(1), m.group(3)), 'some->none'))
+        # numeric literal tweaks in arguments / comparisons
+        m = re.search(r'(?<![\w.])(0\.0|1\.0|2\.0)(?![\w.])', l)
+        if m and st.endswith((';', '{', ',')) and not st.startswith(('const ', 'pub const', 'static ')) and 'assert' not in st:
+            rep = {'0.0': '1.0', '1.0': '0.0', '2.0': '1.0'}[m.group(1)]
+            out.append((i, l[:m.start()] + rep + l[m.end():], 'lit%s->%s' % (m.group(1), rep)))
+    # multi-line statement deletion: a statement that starts on a line not ending in ; { } , and ends at the first later
+    # line ending in ';' with balanced brackets
+    i = 0
+    while i < len(lines):
+        l = lines[i]
+        st = l.strip()
+        if re.match(r'^(pub )?mod tests? \{', st):
+            break
+        if l.startswith('\t\t') and st and not st.startswith(('//', 'let ', 'if ', 'match ', 'for ', 'while ', 'loop', 'return', '}', '.', '#', '*', '/*', 'else')) \
+                and not st.endswith((';', '{', '}', ',', '(')) and re.match(r'^[a-z_\.\*\(&]', st):
+            depth = st.count('(') + st.count('{') + st.count('[') - st.count(')') - st.count('}') - st.count(']')
+            j = i + 1
+            ok = False
+            while j < len(lines) and j < i + 12:
+                sj = lines[j].strip()
+                depth += sj.count('(') + sj.count('{') + sj.count('[') - sj.count(')') - sj.count('}') - sj.count(']')
+                if sj.endswith(';') and depth == 0:
+                    ok = True
+                    break
+                if depth < 0:
+                    break
+                j += 1
+            if ok and all(lines[k].startswith(l[:len(l) - len(l.lstrip())]) for k in range(i, j + 1)):
+                out.append(((i, j), None, 'del-multiline-stmt'))
+                i = j
+        i += 1
     # dedupe no-ops
-    return [(i, n, op) for i, n, op in out if n != lines[i]]
+    return [(i, n, op) for i, n, op in out if n is None or n != lines[i]]
 
 
 def sh(cmd, cwd, env, timeout):
@@ -91,6 +144,8 @@ class Worker:
         orig = open(os.path.join('/repo', SRC, mu['file'])).read()
         lines = orig.split('\n')
         lines[mu['line']] = mu['new']
+        for k in range(mu['line'] + 1, mu.get('end', mu['line']) + 1):
+            lines[k] = '// (deleted)'
         res = dict(mu)
         try:
             open(f, 'w').write('\n'.join(lines))
@@ -135,11 +190,18 @@ def main():
     nw = int(opt('--workers', '8'))
     out = opt('--out', '/tmp/mut.jsonl')
     random.seed(int(opt('--seed', '1')))
+    ops = opt('--ops').split(',') if opt('--ops') else None
     mus = []
     for fn in files:
         text = open(os.path.join('/repo', SRC, fn)).read()
         for i, new, op in candidates(fn, text):
-            mus.append({'file': fn, 'line': i, 'old': text.split('\n')[i], 'new': new, 'op': op})
+            if ops and not any(op.startswith(o) for o in ops):
+                continue
+            if isinstance(i, tuple):
+                ls = text.split('\n')
+                mus.append({'file': fn, 'line': i[0], 'end': i[1], 'old': ls[i[0]], 'new': ls[i[0]][:len(ls[i[0]]) - len(ls[i[0]].lstrip())] + '// (deleted statement)', 'op': op})
+            else:
+                mus.append({'file': fn, 'line': i, 'old': text.split('\n')[i], 'new': new, 'op': op})
     random.shuffle(mus)
     mus = mus[:mx]
     print('%d mutants' % len(mus), flush=True)
